@@ -76,8 +76,52 @@ func Deep(x interface{}) interface{} {
 		}
 		return a
 	default:
+		// other Go containers (say []string, map[string]string, []map[string]interface{}):
+		// copy by reflection so that a snapshot never aliases the original
+		if x == nil {
+			return nil
+		}
+		switch reflect.TypeOf(x).Kind() {
+		case reflect.Map, reflect.Slice:
+			return deepReflect(reflect.ValueOf(x)).Interface()
+		}
 		return x
 	}
+}
+
+func deepReflect(v reflect.Value) reflect.Value {
+	switch v.Kind() {
+	case reflect.Map:
+		if v.IsNil() {
+			return v
+		}
+		m := reflect.MakeMapWithSize(v.Type(), v.Len())
+		it := v.MapRange()
+		for it.Next() {
+			m.SetMapIndex(it.Key(), deepReflect(it.Value()))
+		}
+		return m
+	case reflect.Slice:
+		if v.IsNil() {
+			return v
+		}
+		a := reflect.MakeSlice(v.Type(), v.Len(), v.Len())
+		for i := 0; i < v.Len(); i++ {
+			a.Index(i).Set(deepReflect(v.Index(i)))
+		}
+		return a
+	case reflect.Interface:
+		if v.IsNil() {
+			return v
+		}
+		c := Deep(v.Interface())
+		out := reflect.New(v.Type()).Elem()
+		if c != nil {
+			out.Set(reflect.ValueOf(c))
+		}
+		return out
+	}
+	return v
 }
 
 func DeepBs(bs match.Bindings) match.Bindings {
